@@ -48,18 +48,44 @@ impl IndelCase {
     pub fn samples(&self) -> Vec<Vec<Vec<u8>>> {
         (0..self.n()).map(|i| vec![if self.flip[i] { rc_str(&self.sample_seq(i)) } else { self.sample_seq(i) }]).collect()
     }
+    /// sample sequence with the base coordinate of every letter
+    fn sample_coords(&self, i: usize) -> Vec<(u8, usize)> {
+        let mut s = Vec::new();
+        let mut pos = 0;
+        let mut push = |a: usize, b: usize, s: &mut Vec<(u8, usize)>| {
+            for q in a..b {
+                s.push((self.base[q], q));
+            }
+        };
+        for (si, (st, len)) in self.segs.iter().enumerate() {
+            push(pos, *st, &mut s);
+            if self.present[si][i] {
+                push(*st, st + len, &mut s);
+            }
+            pos = st + len;
+        }
+        push(pos, self.base.len(), &mut s);
+        s
+    }
+    /// Premise re-checked on the derived samples in the JOINT graph: every canonical (k-1)-mer belongs to one
+    /// locus (one tuple of base coordinates) only, none is its own reverse complement.
     pub fn premise(&self) -> bool {
+        let mut locus: std::collections::BTreeMap<Vec<u8>, Vec<usize>> = std::collections::BTreeMap::new();
         for i in 0..self.n() {
-            let s = self.sample_seq(i);
-            let mut seen = std::collections::BTreeSet::new();
-            for w in s.windows(self.k - 1) {
-                let r = rc_str(w);
-                if r == w {
+            let sc = self.sample_coords(i);
+            for w in sc.windows(self.k - 1) {
+                let letters: Vec<u8> = w.iter().map(|x| x.0).collect();
+                let coords: Vec<usize> = w.iter().map(|x| x.1).collect();
+                let r = rc_str(&letters);
+                if r == letters {
                     return false;
                 }
-                let c = if r < w.to_vec() { r } else { w.to_vec() };
-                if !seen.insert(c) {
-                    return false;
+                let c = if r < letters { r } else { letters };
+                match locus.get(&c) {
+                    Some(q) if *q != coords => return false,
+                    _ => {
+                        locus.insert(c, coords);
+                    }
                 }
             }
         }
